@@ -69,7 +69,7 @@ FORMS = ('var', 'call', 'callexpr', 'varexprcall', 'entity', 'ifvar',
          'exprlambda', 'exprcomp', 'exprgen', 'renderexpr', 'subscriptexpr',
          'getitemexpr', 'getitem0expr')
 BINDERS = ('in', 'inb', 'with', 'withmap', 'withonly', 'let', 'letn', 'letn2',
-           'lete',
+           'iffalse', 'lete',
            'if', 'elif', 'try', 'sub', 'subcl')
 SYNTAXES = ('dtml', 'ssi', 'epfs')
 
@@ -478,6 +478,22 @@ def build_scope(case):
             ns['letsrc%d' % k] = ['lit', marker]
             node = ['let', [['other%d' % k, E('1 + 1')],
                             [name, N('letsrc%d' % k)]], inner]
+        elif kind == 'iffalse':
+            # a name-form condition that is *false* is remembered like a true
+            # one: in the else section the name is that value, not a new call
+            # of a callable whose result changes
+            ns['f%d' % k] = ['probeseq', 'f%d' % k,
+                             [['lit', ''], ['lit', 'X1'], ['lit', 'X2']]]
+            cname = 'f%d' % k
+            node = ['if', [[N(cname), [T('then')]]],
+                    [T('<'), ['var', N(cname), []],
+                     ['if', [[N(cname), [T('again-true')]]],
+                      [T('still-false')]], T('>')] + inner]
+            if rebind:
+                node = ['if', [[E('0'), [T('never')]],
+                               [N(cname), [T('then')]]],
+                        [['unless', N(cname), [T('u')]],
+                         ['var', N(cname), []]] + inner]
         elif kind == 'letn2':
             # the name-form binding first, two more behind it
             ns['letsrc%d' % k] = ['lit', marker]
